@@ -544,6 +544,47 @@ def degenerate_configs(rng, count):
     return out
 
 
+def twin_regime_configs(rng, count):
+    """complete runs on data made of two regimes that are exact copies up to a constant shift, fitted with one cluster
+    more than there are regimes: the surplus cluster is under-populated and the two donors TIE exactly."""
+    out = []
+    for i in range(count):
+        cfg = gen_config(rng, joint=False)
+        for k in ("dtype", "completion", "flat", "beta_form"):
+            cfg.pop(k, None)
+        kind = ["pattern", "flat"][i % 2]
+        cfg.update({"N": 2, "W": 2, "K": 3, "regimes": 2, "beta": 5.0, "lam": 0.11, "eps": 0, "biased": False,
+                    "m": 8 if kind == "pattern" else 10, "limit": 10 if kind == "pattern" else 8,
+                    "lens": [2 * rng.choice([61, 65, 70])], "twin_regimes": kind})
+        out.append(cfg)
+    return out
+
+
+def threshold_configs(rng, count):
+    """complete runs with a POSITIVE covariance floor (min_meaningful_covariance) on data whose variances lie on both
+    sides of it: a flat-lined stretch (variance 0), a sensor stuck at one reading, small-amplitude data (variances
+    around 1e-6 under a floor of 1e-4), ordinary data under a large floor."""
+    out = []
+    for i in range(count):
+        kind = ["flat", "constant-sensor", "tiny", "large-floor"][i % 4]
+        cfg = flat_config(rng) if kind == "flat" else gen_config(rng, joint=False)
+        for k in ("dtype", "completion"):
+            cfg.pop(k, None)
+        cfg.update({"N": 2, "K": 2 if kind != "flat" else cfg["K"], "limit": max(2, min(cfg["limit"], 3)), "lam": 0.11})
+        cfg["lens"] = [cfg["W"] - 1 + rng.randint(120, 170)]
+        if kind == "flat":
+            cfg["eps"] = rng.choice([0.05, 1e-4])
+        elif kind == "constant-sensor":
+            cfg.update({"constant_sensor": True, "eps": rng.choice([1e-3, 0.05]), "W": rng.choice([1, 2])})
+        elif kind == "tiny":
+            cfg.update({"scale": 1e-3, "eps": 1e-4, "W": rng.choice([1, 2])})
+        else:
+            cfg["eps"] = rng.choice([0.2, 0.5])
+        cfg["threshold_kind"] = kind
+        out.append(cfg)
+    return out
+
+
 def concentrated_configs(rng, count):
     """complete runs on small-amplitude data (normalised sensors: within-regime std 0.05 .. 0.2) with a light penalty and
     regimes that differ in correlation structure more than in level: densities above 1, so that minus the log-likelihood
@@ -591,6 +632,21 @@ def config_data(cfg):
     r = pyrandom.Random(cfg["data_seed"])
     series = [make_series(r, L, cfg["N"], regimes=cfg.get("regimes", 3), scale=cfg.get("scale", 1.0),
                           seg=(8, 30), mean_scale=cfg.get("mean_scale", 1.0)) for L in cfg["lens"]]
+    if cfg.get("twin_regimes"):
+        # two regimes that are EXACT copies of one another up to a constant shift (an integer-valued pattern repeated at an
+        # integer offset - counters, status words - or two perfectly flat levels): their covariances, and every
+        # quantity ranked or compared by them, tie bit for bit
+        rs_t = np.random.RandomState(cfg["data_seed"] % 2 ** 31)
+        new = []
+        for s_ in series:
+            half = s_.shape[0] // 2
+            if cfg["twin_regimes"] == "pattern":
+                P = rs_t.randint(0, 3, size=(half, cfg["N"])).astype(float)
+            else:
+                P = np.tile(rs_t.randint(1, 4, size=(1, cfg["N"])).astype(float), (half, 1))
+            off = rs_t.randint(5, 12, size=(1, cfg["N"])).astype(float) * (1 + np.arange(cfg["N"]))
+            new.append(np.vstack([P, P + off] + ([P[:s_.shape[0] - 2 * half]] if s_.shape[0] > 2 * half else [])))
+        series = new
     if cfg.get("flat"):
         # a flat-lined stretch: every sensor stuck at one reading for a run of rows (exactly repeated rows, hence
         # exactly repeated windows: a cluster of identical windows has a zero covariance)
@@ -603,6 +659,9 @@ def config_data(cfg):
         # sensors on very different scales (unnormalised units): column j multiplied by sensor_scales[j]
         sc_ = np.asarray(cfg["sensor_scales"], dtype=float)[:cfg["N"]]
         series = [s_ * sc_ for s_ in series]
+    if cfg.get("constant_sensor") and cfg["N"] >= 2:
+        for s_ in series:
+            s_[:, -1] = 2.5 * cfg.get("scale", 1.0)      # a sensor stuck at one reading for the whole record
     if cfg.get("duplicate_sensor") and cfg["N"] >= 2:
         for s_ in series:
             s_[:, -1] = s_[:, 0]
